@@ -77,6 +77,12 @@ ENV = 'I/O failure of the environment (permissions, disk, a file vanishing betwe
 SAFE = {
     ('prophyc.generators.base:TranslatorBase._get_translation_handler', 'ANY AssertionError'):
         'every node class the front-ends produce at top level is a key of _translation_methods_map (re-checked on this run)',
+    ('prophyc.generators.base:TranslatorBase._block_post_process', 'ANY KeyError'):
+        'cls.block_template is a class attribute; every assignment of it in the generator modules is a string literal or a '
+        'module-level literal template (re-checked on this run: C13a.literal-templates)',
+    ('prophyc.generators.cpp_full:generate_struct_constructor.add_to_full', 'ANY KeyError'):
+        'fmt is the literal default or a literal passed by the call sites in generate_struct_constructor (re-checked on this run: '
+        'C13a.literal-templates)',
     ('prophyc.generators.base:_make_path', 'ANY AssertionError'):
         'extensions are the literal keys of top_level_translators, all starting with a dot (re-checked on this run); the output directory '
         'was validated by options.readable_dir (environment, outside the quantifier of the property)',
@@ -125,6 +131,7 @@ SAFE = {
 
 
 def run(ctx, L, tier):
+    literal_templates(ctx, L)
     escapes(ctx, L)
     safe_rechecks(ctx, L)
     isar_none_flow(ctx, L)
@@ -132,6 +139,41 @@ def run(ctx, L, tier):
     from . import c13_progress
     c13_progress.run(ctx, L)
     return sorted(set(o.rule for o in L.obligations))
+
+
+def literal_templates(ctx, L):
+    """The two computed receivers of .format() that the escape analysis suppresses are literals on every path."""
+    n = 0
+    for modname in SCOPE:
+        if not modname.startswith('prophyc.generators'):
+            continue
+        m = ctx.py.mod(modname)
+        lits = set(t.id for st in m.tree.body if isinstance(st, ast.Assign) and isinstance(st.value, ast.Constant) and isinstance(st.value.value, str)
+                   for t in st.targets if isinstance(t, ast.Name))
+        for cq, c in m.classes.items():
+            for st in c.body:
+                if isinstance(st, ast.Assign) and any(isinstance(t, ast.Name) and t.id == 'block_template' for t in st.targets):
+                    n += 1
+                    v = st.value
+                    ok = (isinstance(v, ast.Constant) and (v.value is None or isinstance(v.value, str))) or (isinstance(v, ast.Name) and v.id in lits) or \
+                        (isinstance(v, ast.Call) and isinstance(v.func, ast.Attribute) and v.func.attr == 'format' and isinstance(v.func.value, ast.Constant)
+                         and not v.keywords and all(isinstance(a, ast.Constant) or (isinstance(a, ast.Name) and a.id in lits) for a in v.args))
+                    L.check(ok, 'C13a.literal-templates', '%s|%s.block_template' % (modname, cq), '%s:%d' % (m.rel, st.lineno),
+                            'block_template is formatted with .format(): it must be a literal template, not computed text', ws(unparse(v))[:80])
+    full = ctx.py.mod('prophyc.generators.cpp_full')
+    g = full.func('generate_struct_constructor')
+    a2f = full.func('generate_struct_constructor.add_to_full')
+    d = a2f.node.args.defaults
+    L.check(bool(d) and isinstance(d[-1], ast.Constant) and isinstance(d[-1].value, str), 'C13a.literal-templates', 'add_to_full|default', a2f.site(),
+            'the default of fmt is a literal', '')
+    for c in g.walk():
+        if isinstance(c, ast.Call) and unparse(c.func) == 'add_to_full':
+            extra = list(c.args[3:]) + [k.value for k in c.keywords if k.arg == 'fmt']
+            for e in extra:
+                n += 1
+                L.check(isinstance(e, ast.Constant) and isinstance(e.value, str), 'C13a.literal-templates', 'add_to_full|%s' % norm_key(g, c), g.site(c),
+                        'fmt passed to add_to_full must be a literal template', ws(unparse(e)))
+    L.floor('C13a.literal-templates', n, 6)
 
 
 def escapes(ctx, L):
